@@ -6734,6 +6734,8 @@ int cgi_read_node_data(double node_id, char_33 data_type,
     else if (strcmp(data_type, "R4") == 0) data[0] = CGNS_NEW(float, size);
     else if (strcmp(data_type, "R8") == 0) data[0] = CGNS_NEW(double, size);
     else if (strcmp(data_type, "C1") == 0) data[0] = CGNS_NEW(char, size + 1);
+    else if (strcmp(data_type, "X4") == 0) data[0] = CGNS_NEW(float, 2 * size);
+    else if (strcmp(data_type, "X8") == 0) data[0] = CGNS_NEW(double, 2 * size);
 
     /* read data */
     if (cgio_read_all_data_type(cg->cgio, node_id, data_type, data[0])) {
@@ -6786,6 +6788,8 @@ int cgi_read_node(double node_id, char_33 name, char_33 data_type,
     else if (strcmp(data_type,"R4")==0) data[0]=CGNS_NEW(float, size);
     else if (strcmp(data_type,"R8")==0) data[0]=CGNS_NEW(double, size);
     else if (strcmp(data_type,"C1")==0) data[0]=CGNS_NEW(char, size+1);
+    else if (strcmp(data_type,"X4")==0) data[0]=CGNS_NEW(float, 2*size);
+    else if (strcmp(data_type,"X8")==0) data[0]=CGNS_NEW(double, 2*size);
 
      /* read data */
     if (cgio_read_all_data_type(cg->cgio, node_id, data_type, data[0])) {
